@@ -734,6 +734,11 @@ func corpus() []caseSpec {
 			conds: []*cnode{eq(0, "a"), {Op: "and", L: &cnode{Op: "neq", Key: 0, Vals: []string{"a"}}, R: &cnode{Op: "like", Key: 1, Vals: []string{"x*"}}},
 				eq(1, "x"), {Op: "or", L: &cnode{Op: "notin", Key: 1, Vals: []string{"x"}}, R: &cnode{Op: "re", Key: 0, Vals: []string{"^a$"}}}},
 			gkeys: [][]int{{0}, {1}, {0, 1}, nil}},
+		{name: "series of one tag key in three containers of series ids (two runs of 65536 fillers), flushed, grouped", fillers: 65536,
+			series: []map[int]string{{0: "a", 1: "x"}, {0: "b", 1: "y"}, {0: "c", 1: "x"}, {0: "d", 1: "y"}, {0: "e", 1: "x"}, {0: "f"}, {0: "g", 1: "z"}},
+			script: strings.Split("wwFwwFwwwfqqcq", ""),
+			conds:  []*cnode{{Op: "like", Key: 0, Vals: []string{"*"}}, {Op: "neq", Key: 0, Vals: []string{"a"}}, {Op: "in", Key: 1, Vals: []string{"x", "z"}}},
+			gkeys:  [][]int{{0}, {0, 1}, {1, 0}}},
 		{name: "not over every layer", series: three, script: strings.Split("wwpwwfwcqq", ""),
 			conds: []*cnode{{Op: "and", L: &cnode{Op: "neq", Key: 0, Vals: []string{"x"}}, R: &cnode{Op: "notlike", Key: 1, Vals: []string{"b*"}}},
 				{Op: "or", L: &cnode{Op: "nre", Key: 0, Vals: []string{"^[xy]"}}, R: eq(1, "b")}},
